@@ -192,7 +192,7 @@ class Ctx:
             return bool(x)
         if v[0] == "not":
             return not self.truthy(v[1])
-        if v[0] in ("closure", "gen", "collect"):
+        if v[0] in ("closure", "hyclosure", "gen", "collect"):
             return True
         if v not in self.memo:
             self.memo[v] = bool(self.o.choose(("truthy", v)))
@@ -596,8 +596,14 @@ def ex1(c, s):
         it = ev(c, s.iter)
         for_loop(c, it, s.target, lambda: ex(c, s.body), (lambda: ex(c, s.orelse)) if s.orelse else None)
     elif isinstance(s, (ast.FunctionDef, ast.AsyncFunctionDef)):
-        if s.decorator_list or s.args.defaults or s.args.kw_defaults:
-            raise Unsupported("function with decorators/defaults in pysem")
+        if s.decorator_list:
+            raise Unsupported("function with decorators in pysem")
+        # executing a `def` evaluates its parameter defaults, positional ones first, then keyword-only ones, left to right
+        # (annotations are not modelled); the function can then be passed around but not called by this interpreter
+        for d in list(s.args.defaults) + [d for d in s.args.kw_defaults if d is not None]:
+            ev(c, d)
+        if any(a.annotation is not None for a in s.args.posonlyargs + s.args.args + s.args.kwonlyargs) or s.returns is not None:
+            raise Unsupported("function with annotations in pysem")
         clo = ("closure", id(s), s)
         if is_temp(s.name):
             c.frame.assign(s.name, clo)
